@@ -26,6 +26,7 @@ package dhash
 //@   det
 //@   ensures-assumed content(result) == bcat(content(dest), sha(catAll(payloads)))
 //@   ensures-assumed len(result) == len(dest) + 32
+//@   ensures dest == nil ==> isfresh(result)
 
 //@ func SHA256
 //@   property C12
@@ -33,6 +34,7 @@ package dhash
 //@   det
 //@   ensures len(result) == len(dest) + 32
 //@   ensures content(result) == bcat(content(dest), sha(content(payload)))
+//@   ensures dest == nil ==> isfresh(result)
 
 //@ func SecondMultihash
 //@   property C12
@@ -44,6 +46,7 @@ package dhash
 //@   assumes cap(secondHashPrefix) == len(secondHashPrefix) && cap(deriveKeyPrefix) == len(deriveKeyPrefix) && cap(noncePrefix) == len(noncePrefix)
 //@   det
 //@   ensures len(result) == 32
+//@   ensures isfresh(result)
 //@   ensures content(result) == keyOf(content(passphrase))
 
 // Fail closed: a nonce of the wrong length is an error, never a panic
@@ -63,6 +66,7 @@ package dhash
 //@   det
 //@   ensures result2 == nil
 //@   ensures len(result0) == 12
+//@   ensures isfresh(result0) && isfresh(result1)
 //@   ensures content(result0) == nonceOf(content(payload), len(payload), content(passphrase))
 //@   ensures content(result1) == aeadSeal(keyOf(content(passphrase)), content(result0), content(payload))
 
